@@ -32,6 +32,7 @@ type Env struct {
 	pkg         *types.Package
 	callee      bool
 	resultNames []string
+	lenient     bool
 }
 
 func (e *Env) with(st *State) *Env {
@@ -328,6 +329,25 @@ func (x *Exec) qualified(pkgName, name string, env *Env) (TV, bool) {
 func (x *Exec) localByName(name string, env *Env) (TV, bool) {
 	fn := env.fn
 	var cands []*ssa.Alloc
+	// rangeindexK: the hidden index variable of the K-th range-over-slice loop of the function
+	// (it holds the index of the current iteration; -1 before the first)
+	if strings.HasPrefix(name, "rangeindex") && len(name) > len("rangeindex") {
+		if k, err := strconv.Atoi(name[len("rangeindex"):]); err == nil {
+			n := 0
+			for _, l := range fn.Locals {
+				if l.Comment == "rangeindex" {
+					n++
+					if n == k {
+						if v, ok := env.st.cells[l]; ok {
+							return TV{v, deref(l.Type())}, true
+						}
+						return TV{}, false
+					}
+				}
+			}
+			return TV{}, false
+		}
+	}
 	for _, l := range fn.Locals {
 		if l.Comment == name {
 			cands = append(cands, l)
@@ -646,7 +666,7 @@ func (x *Exec) toFloat(a TV) TV {
 	if c.bv {
 		return TV{Sc{c.mk("(_ to_fp 11 53)", SF64, c.mk("RNE", "RoundingMode"), t)}, types.Typ[types.Float64]}
 	}
-	return TV{Sc{c.mk("(_ to_fp 11 53)", SF64, c.mk("RNE", "RoundingMode"), c.mk("to_real", SReal, t))}, types.Typ[types.Float64]}
+	return TV{Sc{x.intToFloat(t)}, types.Typ[types.Float64]}
 }
 
 func (x *Exec) evalQuant(e *CE, env *Env) TV {
@@ -758,7 +778,7 @@ func (x *Exec) evalCall(e *CE, env *Env) TV {
 		if c.bv {
 			return TV{Sc{c.mk("(_ fp.to_sbv 64)", SInt, c.mk("RTZ", "RoundingMode"), x.scalar(a.V))}, intT}
 		}
-		return TV{Sc{c.mk("to_int", SInt, c.mk("fp.to_real", SReal, x.scalar(a.V)))}, intT}
+		return TV{Sc{c.App("f2i", SInt, x.scalar(a.V))}, intT}
 	case "min", "max":
 		a, b := arg(0), arg(1)
 		at, bt := x.scalar(a.V), x.scalar(b.V)
@@ -1016,7 +1036,8 @@ func (x *Exec) targetLocs(m *CE, env *Env) []loc {
 		}
 		return []loc{{kind: "box", base: p.Base, prefix: "B:" + typeKey(t), typ: t}}
 	case PElem:
-		return []loc{{kind: "elems", base: p.Base, prefix: "E:" + typeKey(p.Elem), typ: p.Elem}}
+		// a single element: s[i]
+		return []loc{{kind: "elem1", base: p.Base, idx: p.Idx, prefix: "E:" + typeKey(p.Elem), typ: p.Elem}}
 	case PLocal:
 		return []loc{{kind: "cell", cell: p.Cell}}
 	case PGlobal:
@@ -1066,10 +1087,15 @@ func (x *Exec) frameGoals(st *State, fc *FuncContract) []frameGoal {
 		}
 		r := c.BoundVar("r", SInt)
 		var excl []*Term
+		var elem1 []loc
 		whole := false
 		for _, l := range locs {
 			if l.kind == "prefix" && keyMatches(k, l.prefix) {
 				whole = true
+			}
+			if l.kind == "elem1" && keyMatches(k, l.prefix) {
+				elem1 = append(elem1, l)
+				continue
 			}
 			if l.base != nil && (keyMatches(k, l.prefix)) {
 				excl = append(excl, c.Neq(r, l.base))
@@ -1079,6 +1105,17 @@ func (x *Exec) frameGoals(st *State, fc *FuncContract) []frameGoal {
 			continue
 		}
 		cond := c.And(append([]*Term{c.Le(c.Int(0), r), c.Lt(r, entry.allocTop)}, excl...)...)
+		if len(elem1) > 0 && strings.HasPrefix(k, "E:") {
+			// element-wise: every element other than the named single elements is unchanged
+			j := c.BoundVar("j", SInt)
+			var notNamed []*Term
+			for _, l := range elem1 {
+				notNamed = append(notNamed, c.Not(c.And(c.Eq(r, l.base), c.Eq(j, l.idx))))
+			}
+			body := c.Implies(c.And(append([]*Term{cond}, notNamed...)...), c.Eq(c.Select(c.Select(cur, r), j), c.Select(c.Select(was, r), j)))
+			out = append(out, frameGoal{k + " unchanged outside the modifies clause", c.Forall([]*Term{r, j}, body, nil)})
+			continue
+		}
 		body := c.Implies(cond, c.Eq(c.Select(cur, r), c.Select(was, r)))
 		out = append(out, frameGoal{k + " unchanged outside the modifies clause", c.Forall([]*Term{r}, body, nil)})
 	}
